@@ -139,3 +139,96 @@ macro_rules! c03_gamma_inf {
 //@ bounds: shape = +inf or scale = +inf
 //@ assumes: utils::ziggurat by contract (Exp1 draw > 0)
 c03_gamma_inf!(c03_gamma_inf_f64, f64);
+
+// ------------------------------------------------------------------------------------------
+// C07: Gamma is a scale family.  Two runs on the same stream: the standard member (scale 1) and a scaled member
+// (scale a power of two, so that `* scale` is exact and any order of the final multiplications gives the same
+// bits).  ziggurat is a deterministic function of the consumed word, ln/pow are deterministic cheap functions
+// (structure only: accept/reject decisions cannot depend on scale, the result is the standard result * scale,
+// the same number of words is consumed).  Covers all three internal variants (shape < 1, = 1, > 1).
+// ------------------------------------------------------------------------------------------
+fn g_ln64(x: f64) -> f64 { x - 1.0 }
+fn g_ln32(x: f32) -> f32 { x - 1.0 }
+fn g_pow64(x: f64, _y: f64) -> f64 { x }
+fn g_pow32(x: f32, _y: f32) -> f32 { x }
+macro_rules! c07_gamma_scale {
+    ($name:ident, $f:ty, $budget:expr, $shape:expr) => {
+        #[kani::proof]
+        #[kani::stub(crate::utils::ziggurat, f_ziggurat_words)]
+        #[kani::stub(libm::sqrt, c_sqrt64_const)]
+        #[kani::stub(libm::sqrtf, c_sqrt32_const)]
+        #[kani::stub(libm::log, g_ln64)]
+        #[kani::stub(libm::logf, g_ln32)]
+        #[kani::stub(libm::pow, g_pow64)]
+        #[kani::stub(libm::powf, g_pow32)]
+        #[kani::unwind(6)]
+        fn $name() {
+            let words: [u64; NW] = kani::any();
+            let sel: u8 = kani::any();
+            let shape: $f = $shape;
+            let scale: $f = match sel & 3 { 0 => 2.0, 1 => 0.5, 2 => 4.0, _ => 1024.0 };
+            let mut r1 = SymRng::from_words(words, $budget);
+            let mut r2 = SymRng::from_words(words, $budget);
+            let x: $f = Gamma::<$f>::new(shape, scale).unwrap().sample(&mut r1);
+            let z: $f = Gamma::<$f>::new(shape, 1.0).unwrap().sample(&mut r2);
+            vassert!(r1.pos == r2.pos, "Gamma: number of words consumed depends on scale");
+            // away from the subnormal range, where the order of exact scalings can matter
+            if z == z && (z == 0.0 || z > 1e-30) && z < 1e30 {
+                vassert!(biteq64(x as f64, (z * scale) as f64), "Gamma: sample is not (standard member's sample) * scale");
+            }
+            kani::cover!(z > 1e-30 && z < 1e30 && scale == 1024.0, "a sample in the judged range");
+        }
+    };
+}
+//@ id: c07_gamma_scale_f32_small
+//@ besteffort: yes
+//@ prop: C07
+//@ tier: thorough
+//@ cap: 900
+//@ funcs: Gamma::<f32>::new; Gamma::<f32>::sample (Small: one uniform, one Marsaglia-Tsang trial); GammaLargeShape::sample_unscaled; Exp::sample
+//@ bounds: shape = 0.5, scale in {2, 1/2, 4, 1024} (powers of two: the map is exact), every stream, returns within 3 word(s); standard sample in {0} u (1e-30, 1e30)
+//@ assumes: utils::ziggurat replaced by a deterministic function of the consumed word (8-bit lattice); libm::sqrt by a constant, libm::log by x-1, libm::pow by its first argument (structure only; native replay uses the real functions)
+c07_gamma_scale!(c07_gamma_scale_f32_small, f32, 3, 0.5);
+//@ id: c07_gamma_scale_f32_one
+//@ prop: C07
+//@ tier: quick
+//@ cap: 900
+//@ funcs: Gamma::<f32>::new; Gamma::<f32>::sample (One: Exp); GammaLargeShape::sample_unscaled; Exp::sample
+//@ bounds: shape = 1.0, scale in {2, 1/2, 4, 1024} (powers of two: the map is exact), every stream, returns within 1 word(s); standard sample in {0} u (1e-30, 1e30)
+//@ assumes: utils::ziggurat replaced by a deterministic function of the consumed word (8-bit lattice); libm::sqrt by a constant, libm::log by x-1, libm::pow by its first argument (structure only; native replay uses the real functions)
+c07_gamma_scale!(c07_gamma_scale_f32_one, f32, 1, 1.0);
+//@ id: c07_gamma_scale_f32_large
+//@ prop: C07
+//@ tier: quick
+//@ cap: 900
+//@ funcs: Gamma::<f32>::new; Gamma::<f32>::sample (Large: one Marsaglia-Tsang trial); GammaLargeShape::sample_unscaled; Exp::sample
+//@ bounds: shape = 2.5, scale in {2, 1/2, 4, 1024} (powers of two: the map is exact), every stream, returns within 2 word(s); standard sample in {0} u (1e-30, 1e30)
+//@ assumes: utils::ziggurat replaced by a deterministic function of the consumed word (8-bit lattice); libm::sqrt by a constant, libm::log by x-1, libm::pow by its first argument (structure only; native replay uses the real functions)
+c07_gamma_scale!(c07_gamma_scale_f32_large, f32, 2, 2.5);
+//@ id: c07_gamma_scale_f64_small
+//@ besteffort: yes
+//@ prop: C07
+//@ tier: thorough
+//@ cap: 900
+//@ funcs: Gamma::<f64>::new; Gamma::<f64>::sample (Small: one uniform, one Marsaglia-Tsang trial); GammaLargeShape::sample_unscaled; Exp::sample
+//@ bounds: shape = 0.5, scale in {2, 1/2, 4, 1024} (powers of two: the map is exact), every stream, returns within 3 word(s); standard sample in {0} u (1e-30, 1e30)
+//@ assumes: utils::ziggurat replaced by a deterministic function of the consumed word (8-bit lattice); libm::sqrt by a constant, libm::log by x-1, libm::pow by its first argument (structure only; native replay uses the real functions)
+c07_gamma_scale!(c07_gamma_scale_f64_small, f64, 3, 0.5);
+//@ id: c07_gamma_scale_f64_one
+//@ besteffort: yes
+//@ prop: C07
+//@ tier: thorough
+//@ cap: 900
+//@ funcs: Gamma::<f64>::new; Gamma::<f64>::sample (One: Exp); GammaLargeShape::sample_unscaled; Exp::sample
+//@ bounds: shape = 1.0, scale in {2, 1/2, 4, 1024} (powers of two: the map is exact), every stream, returns within 1 word(s); standard sample in {0} u (1e-30, 1e30)
+//@ assumes: utils::ziggurat replaced by a deterministic function of the consumed word (8-bit lattice); libm::sqrt by a constant, libm::log by x-1, libm::pow by its first argument (structure only; native replay uses the real functions)
+c07_gamma_scale!(c07_gamma_scale_f64_one, f64, 1, 1.0);
+//@ id: c07_gamma_scale_f64_large
+//@ besteffort: yes
+//@ prop: C07
+//@ tier: thorough
+//@ cap: 900
+//@ funcs: Gamma::<f64>::new; Gamma::<f64>::sample (Large: one Marsaglia-Tsang trial); GammaLargeShape::sample_unscaled; Exp::sample
+//@ bounds: shape = 2.5, scale in {2, 1/2, 4, 1024} (powers of two: the map is exact), every stream, returns within 2 word(s); standard sample in {0} u (1e-30, 1e30)
+//@ assumes: utils::ziggurat replaced by a deterministic function of the consumed word (8-bit lattice); libm::sqrt by a constant, libm::log by x-1, libm::pow by its first argument (structure only; native replay uses the real functions)
+c07_gamma_scale!(c07_gamma_scale_f64_large, f64, 2, 2.5);
